@@ -1,6 +1,8 @@
 mod bridge;
 mod gen;
 mod orch;
+mod p_flow;
+mod p_net;
 mod p_solve;
 mod rng;
 
@@ -10,6 +12,8 @@ use serde_json::Map;
 fn case_fn_for(prop: &str) -> CaseFn {
     match prop {
         "C01" | "C02" | "C03" | "C04" | "C05" | "C06" | "C07" => p_solve::case,
+        "C14" => p_flow::case,
+        "C17" => p_net::case,
         _ => panic!("unknown property {}", prop),
     }
 }
@@ -45,6 +49,14 @@ fn spec_for(prop: &str, tier: &str, seed: u64) -> RunSpec {
             s.rule = format!("{}every instance is run in the release and in the checked (overflow-checks, debug-assertions) build; non-trivial = every distinct instance (a full pipeline run)", gen_rule);
             s.variants = vec!["release".to_string(), "checked".to_string()];
             s.crash_is_violation = true;
+        }
+        "C14" => {
+            s.rule = "instances with decoupled depot totals from the seeded generator; MinCostFlowSolver::solve() is observed through public getters and compared per vehicle type with an independent min-cost circulation (successive shortest paths, lexicographic (vehicles, cost)) over ALL connectable pairs; non-trivial = distinct instances whose start solution chains >= 2 activities in some tour".to_string();
+            s.cases = if thorough { 15000 } else { 500 };
+        }
+        "C17" => {
+            s.rule = "instances from the seeded generator (emphasis ties, non-metric, forbidden dead-heads); every public getter of the loaded Network is compared with the reference model, can_reach for ALL ordered node pairs, successors/predecessors for every node and type as sets; non-trivial = distinct instances containing >= 1 zero-slack pair and >= 1 pair with a location change".to_string();
+            s.cases = if thorough { 8000 } else { 400 };
         }
         "C07" => s.rule = format!("{}non-trivial = distinct instances with a segment needing >= 2 vehicles", gen_rule),
         _ => {}
